@@ -134,6 +134,7 @@ def dispatch : List String → String
   | ["schema_req", _] => "~one outcome for every loading route"
   | ["schema_ext", _] => "~extension fields of a dynamically loaded schema survive in both directions"
   | ["schema_rev", _] => "~a type that only the loaded revision of a linked-in schema defines is resolved from the loaded schema"
+  | ["schema_mixed", _] => "~a method with its request type in a shared file and its response type in the loaded file is served alike whatever the resolver"
   | ["schema_rest_grpc", _] => "~a response that is valid for a REST client"
   | ["config", h] => runConfig h
   | ["config_err", h] => runConfigErr h
